@@ -611,7 +611,7 @@ def tasks(tier, seed):
     for i in range(nsh):
         out.append(Task("t_seasons", blocks=blocks[i::nsh]))
     mult = 1 if tier == "quick" else 12
-    plan = {"eot": (16, 8), "rise_set": (16, 650), "trts": (16, 1500), "season_range": (1, 300)}
+    plan = {"eot": (16, 12), "rise_set": (16, 900), "trts": (16, 1500), "season_range": (1, 300)}
     for clause, (shards, n) in plan.items():
         nshards = shards if tier == "quick" else shards * 2
         for sh in range(nshards):
